@@ -37,6 +37,21 @@ def _or(a, b):
     return UNK
 
 
+def _plain_index(sl):
+    """Element-preserving subscripts: constants, plain slices, tuples of them."""
+    if isinstance(sl, ast.Constant):
+        return True
+    if isinstance(sl, ast.Slice):
+        return all(x is None or isinstance(x, ast.Constant) or (
+            isinstance(x, ast.UnaryOp) and isinstance(x.operand, ast.Constant))
+            for x in (sl.lower, sl.upper, sl.step))
+    if isinstance(sl, ast.Tuple):
+        return all(_plain_index(e) for e in sl.elts)
+    if isinstance(sl, ast.Name):
+        return True  # a loop index such as args[i]
+    return False
+
+
 class ErrFlow:
     def __init__(self, ctx):
         self.ctx, self.p, self.cg = ctx, ctx.project, ctx.cg
@@ -296,6 +311,10 @@ class ErrFlow:
                 continue
             if isinstance(n, ast.Lambda):
                 continue
+            if isinstance(n, ast.Subscript) and not _plain_index(n.slice):
+                # boolean-mask / fancy indexing keeps only *some* elements: a
+                # check on the result does not cover the elements filtered out
+                continue
             stack.extend(ast.iter_child_nodes(n))
         return out
 
@@ -329,11 +348,23 @@ class ErrFlow:
                 if isinstance(base, ast.Name):
                     for a in n.args:
                         assigns.append((base, a))
+        filtered = set()
+        if structural:
+            # a name that is (re)bound to a filtered view of something loses
+            # its coverage: a check on it no longer covers what was filtered out
+            for t, v in assigns:
+                if isinstance(v, ast.Subscript) and not _plain_index(v.slice):
+                    for tn in ast.walk(t):
+                        if isinstance(tn, ast.Name):
+                            filtered.add(tn.id)
         while changed:
             changed = False
             for t, v in assigns:
                 if structural:
                     src = self._struct_names(v, d)
+                    if any(isinstance(tn, ast.Name) and tn.id in filtered
+                           for tn in ast.walk(t)):
+                        src = set()
                 else:
                     src = set()
                     for nm in ast.walk(v):
